@@ -1,8 +1,8 @@
 #!/bin/bash
 # tools/sweep.sh <tier> <seed> [checks...] : runs checks sequentially, prints one summary line each.
 tier="${1:-quick}"; seed="${2:-1}"; shift 2
-checks="$@"; [ -z "$checks" ] && checks=$(python3 -c "import json;print(' '.join(c['property_id'] for c in json.load(open('/verif/MANIFEST.json'))['checks']))")
-cd /verif
+checks="$@"; [ -z "$checks" ] && checks=$(python3 -c "import json;print(' '.join(c['property_id'] for c in json.load(open('MANIFEST.json'))['checks']))")
+cd "$(dirname "$0")/.."
 for c in $checks; do
   out=$(VERIF_SEED=$seed ./check $c $tier 2>&1); rc=$?
   echo "$(date +%H:%M:%S) $c $tier seed=$seed exit=$rc viol=$(echo "$out" | grep -c '^VIOLATION') known=$(echo "$out" | grep -c '^KNOWN-FINDING') :: $(echo "$out" | tail -1 | cut -c1-260)"
